@@ -148,6 +148,18 @@ impl Check for C15 {
             Tier::Thorough => GraphParams { nv: (1, 120), extra_edge_factor: 3.0, ..Default::default() },
         };
         let mut w = World::gen_graph(&mut r, &gp);
+        if r.chance(0.04) && w.nv() >= 2 {
+            // a mega hub: several hundred (mostly parallel) edges leaving and entering one vertex
+            let hub = r.below(w.nv() as u64) as usize;
+            let n_out = r.range(250, 700);
+            for k in 0..n_out {
+                let other = r.below(w.nv() as u64) as usize;
+                let (a, b) = if k % 3 == 0 { (other, hub) } else { (hub, other) };
+                w.edges.push((a, b, crate::world::q6(10.0 + r.f64() * 1000.0)));
+                w.speeds.push(crate::world::q6(10.0 + r.f64() * 100.0));
+                w.grades.push(0.0);
+            }
+        }
         w.gz_edges = r.chance(0.5);
         w.gz_vertices = r.chance(0.5);
         w.gz_tables = r.chance(0.5);
@@ -238,6 +250,7 @@ impl Check for C15 {
         let w = &case.world;
         reach.insert("gz_files".into(), (w.gz_edges as u64) + (w.gz_vertices as u64) + (w.gz_tables as u64));
         reach.insert("degree_gt4".into(), (0..w.nv()).filter(|v| w.edges.iter().filter(|e| e.0 == *v).count() > 4).count() as u64);
+        reach.insert("degree_gt256".into(), (0..w.nv()).filter(|v| w.edges.iter().filter(|e| e.0 == *v).count() > 256).count() as u64);
         reach.insert("scanned_counts".into(), (!w.explicit_counts) as u64);
         reach.insert("misnamed_gz".into(), w.gz_misnamed as u64);
         if case.family == "enumerate" {
